@@ -13,6 +13,7 @@ import NflowsModel.Lemmas.QuadWhole
 import NflowsModel.Lemmas.TanhStable
 import NflowsModel.Lemmas.ARWhole
 import NflowsModel.Lemmas.TailsWhole
+import NflowsModel.Lemmas.StructureExecRQTails
 /-!
 # C01 — the forward log-abs-det equals log |det Jacobian| of the map actually computed
 
@@ -277,5 +278,18 @@ theorem rq_tails_program_logdet (e : Float → ℝ) (tb minW minH minD beta : Fl
     HasDerivAt (TailsWhole.valT e tb minW minH minD beta uw uh ud)
       (Real.exp (TailsWhole.ldT e tb minW minH minD beta uw uh ud x)) x :=
   TailsWhole.valT_hasDerivAt_all hv hp x
+
+/-- **masked autoregressive RQ layer with linear tails: `ld[b] = log |det J_b|` at EVERY real row** (tails, junctions, knots
+    and open bins alike) — `hL` is differentiability of the row map through the arbitrary conditioner, `PadExact` reads the
+    padding constant exactly. -/
+theorem exec_made_rq_tails_row_logdet (e : Float → ℝ) (c : ElCfg) (hc : NF.StructureExec.RQTailsCfgValid e c)
+    (hp : TailsWhole.PadExact e (NF.StructureExec.tMD c) (NF.StructureExec.tBe c)) (a : NF.Made.Arch) (n : NF.Made.Net)
+    (hbuild : NF.Made.build a = .ok n) (hmult : a.mult = 3 * c.K - 1) (W : ℕ → ℕ → ℕ → ℝ) (bias : ℕ → ℕ → ℝ) (B : Nat)
+    (ctxv : ℕ → ℕ → Fin B → ℝ) (g : ℕ → NF.Made.Slot → ℕ → (Fin B → ℝ) → Fin B → ℝ)
+    (x : Array ℝ) (hx : x.size = B * a.F) {b : Nat} (hb : b < B) {L : (Fin a.F → ℝ) →L[ℝ] (Fin a.F → ℝ)}
+    (hL : HasFDerivAt (NF.ARWhole.rowMap e c B a.F (NF.ARWhole.madeNet n W bias B ctxv g) x b) L (fun i => x.getD (b * a.F + i.1) 0)) :
+    (NF.ARWhole.arForward (NF.realX e) c B a.F (NF.ARWhole.madeNet n W bias B ctxv g) x).ld[b]?
+      = some (Real.log |LinearMap.det (L : (Fin a.F → ℝ) →ₗ[ℝ] (Fin a.F → ℝ))|) :=
+  NF.ARWhole.made_rq_tails_row_logdet e c hc hp a n hbuild hmult W bias B ctxv g x hx hb hL
 
 end Properties.C01
